@@ -31,6 +31,7 @@
 #include <Eigen/Core>
 #include "romea_core_common/geodesy/ECEFConverter.hpp"
 #include "romea_core_common/geodesy/LambertConverter.hpp"
+#include <cfenv>
 #include "vh.hpp"
 #include "vh_hooks.hpp"
 
@@ -931,7 +932,12 @@ static void one_case(vh::Ctx & c, uint64_t idx)
                .f("lat_first", inv0[0]).f("lat_again", inv1[0]).f("n_first", pp0[1]).f("n_again", pp1.n).str();
       });
     // the library's shared, mutable GRS80 object is what it was
+    // (reference built under round-to-nearest, like the static object itself: this case may be one
+    // the framework runs with a directed caller rounding mode)
+    const int caller_mode = fegetround();
+    fesetround(FE_TONEAREST);
     const EarthEllipsoid fresh(6378137.0, 6356752.314);
+    fesetround(caller_mode);
     const EarthEllipsoid & g = EarthEllipsoid::GRS80;
     c.expect("shared_state.static_GRS80_unchanged",
       same_bits(g.a, fresh.a) && same_bits(g.b, fresh.b) && same_bits(g.e2, fresh.e2) && same_bits(g.e, fresh.e),
